@@ -66,6 +66,7 @@ struct Oracle {
     std::vector<Traversal> travs;
     std::vector<Mutation> muts;
     std::map<long, uint64_t> push_inv, push_resp, erase_inv;
+    std::set<long> erase_returned;  // values for which some erase() call returned normally
     bool had_erase = false;
     int throw_budget = 0;
 };
@@ -487,6 +488,10 @@ struct WL {
                             O->muts.push_back(Mutation{2, v, gsim::seq(), ~0ull});
                         }
                         h->erase(it);
+                        {
+                            gsim::Oracle o;
+                            O->erase_returned.insert(v);
+                        }
                         if (op.c & 2) h->erase(it);  // erasing an erased element is a no-op
                         for (int y = 0; y < op.b; y++) gsim::yield();
                         // the erased element stays valid while this handle lives
@@ -786,6 +791,28 @@ struct WL {
                 hit = orc.oom_hit;
             }
             if (!hit) check_history(*fin);
+            else {
+                // after an injected allocation failure only what completed normally is
+                // judged: an element whose erase() RETURNED is gone, an element whose push
+                // returned and that nobody tried to erase is there (a call that threw may or
+                // may not count)
+                gsim::Oracle o;
+                std::set<long> in(fin->begin(), fin->end());
+                if (in.size() != fin->size())
+                    gsim::fail("duplicate_element", "final contents contain a value twice");
+                for (long v : orc.erase_returned)
+                    if (in.count(v))
+                        gsim::fail("erase_lost", "an erase() of value %ld returned normally (after an "
+                                   "earlier allocation failure somewhere) but the value is still in "
+                                   "the final list", v);
+                for (auto& pr : orc.push_resp)
+                    if (!orc.erase_inv.count(pr.first) && !in.count(pr.first))
+                        gsim::fail("lost_element", "value %ld was pushed (the call returned) and never "
+                                   "erased but is not in the final list", pr.first);
+                for (long v : in)
+                    if (!orc.push_inv.count(v))
+                        gsim::fail("phantom_element", "final list contains %ld which was never pushed", v);
+            }
         } else
             gsim::probe("rcu.destructor_reclaims");
         long destroyed_before = 0;
